@@ -176,15 +176,18 @@ inductive Search where
   | found (p : Parser)
   /-- not present: parser positioned on the first higher field (or exhausted), `candidate_ptr` -/
   | insertAt (p : Parser) (candidate : Nat)
+  /-- the field is present but does not end inside the buffer: `throw malformed_packet()` -/
+  | truncated
 
-/-- the `while (parser.has_fields())` loop of `write_option` -/
-def searchLoop (M : Meta) : Nat → Parser → Nat → Nat → Search
-  | 0, p, _, cand => .insertAt p cand
-  | fuel + 1, p, bit, cand =>
+/-- the `while (parser.has_fields())` loop of `write_option`; `dataLen` = `option.data_size()` -/
+def searchLoop (M : Meta) : Nat → Parser → Nat → Nat → Nat → Search
+  | 0, p, _, _, cand => .insertAt p cand
+  | fuel + 1, p, bit, dataLen, cand =>
     if hasFields M p then
       if p.bit > bit then .insertAt p cand
-      else if p.bit = bit then .found p
-      else searchLoop M fuel (advanceField M p).1 bit (p.ptr + M.size p.bit)
+      else if p.bit = bit then
+        if dataLen > p.buf.length - p.ptr then .truncated else .found p
+      else searchLoop M fuel (advanceField M p).1 bit dataLen (p.ptr + M.size p.bit)
     else .insertAt p cand
 
 /-- `RadioTapWriter::build_padding_vector(last_ptr, parser)` -/
@@ -233,7 +236,8 @@ def writeOption (M : Meta) (buf : Bytes) (bit : Nat) (data : Bytes) : Out Bytes 
   | .throw e => .throw e
   | .fault s => .fault s
   | .ok parser =>
-    match searchLoop M (loopFuel M buf) parser bit parser.ptr with
+    match searchLoop M (loopFuel M buf) parser bit data.length parser.ptr with
+    | .truncated => .throw .malformedPacket
     | .found p =>
       if p.ptr + data.length > buf.length then .fault "write_option:memcpy"
       else .ok (buf.take p.ptr ++ data ++ buf.drop (p.ptr + data.length))
@@ -241,7 +245,7 @@ def writeOption (M : Meta) (buf : Bytes) (bit : Nat) (data : Bytes) : Out Bytes 
       let offset := if buf.isEmpty then 0 else candidate
       let paddings := buildPaddingVector M (loopFuel M buf) p candidate
       let padding := calculatePadding (M.align bit) (offset + 4)
-      if offset > buf.length then .fault "write_option:insert" else
+      if offset > buf.length then .throw .malformedPacket else
       let buf1 := buf.take offset ++ zeros padding ++ data ++ buf.drop offset
       match updatePaddings (paddings.length + 1) paddings 0 ((offset + padding + data.length : Nat) : Int) buf1 with
       | .throw e => .throw e
